@@ -49,11 +49,11 @@ BAD_OPT_VALUES = [{'raw': 'x'}, {'raw': 1}, {'trivia': 'zz'}, {'trivia': ('all',
 ERR_WEIGHTS = {'unparsable': 3, 'wrongcat': 5, 'wrongcat-ast': 3, 'wrongcat-fst': 3, 'arglike': 4, 'index': 1.5, 'optname': 0.5,
                'optvalue': 1, 'consumed': 1, 'nonroot': 0.7, 'nonroot-self': 1, 'ownroot': 0.7, 'undeletable': 2.5,
                'to-nonraw': 1, 'one-false': 1, 'raw-unparsable': 1, 'raw-wrongcat': 2, 'badarg': 0.4, 'vslice': 5,
-               'put_src': 2.5, 'root': 1.5, 'delete-field': 2, 'optvalue-stmt': 3, 'valid-any': 6, 'raw-any': 4}
+               'put_src': 2.5, 'root': 1.5, 'delete-field': 2, 'optvalue-stmt': 3, 'valid-any': 6, 'raw-any': 4, 'prim': 3}
 
 ERR_KINDS = ['unparsable', 'wrongcat', 'wrongcat-ast', 'wrongcat-fst', 'arglike', 'index', 'optname', 'optvalue',
              'consumed', 'nonroot', 'nonroot-self', 'ownroot', 'undeletable', 'to-nonraw', 'one-false', 'raw-unparsable',
-             'raw-wrongcat', 'badarg', 'vslice', 'put_src', 'root', 'delete-field', 'optvalue-stmt', 'valid-any', 'raw-any']
+             'raw-wrongcat', 'badarg', 'vslice', 'put_src', 'root', 'delete-field', 'optvalue-stmt', 'valid-any', 'raw-any', 'prim']
 
 
 def nodes_of(root):
@@ -87,6 +87,8 @@ def mk_code(spec, root, nodes):
         return spec['v'].split('\n')
     if k == 'none':
         return None
+    if k == 'prim':           # a primitive value (int / bool / str / float / None), not source
+        return spec['v']
     if k == 'ast':
         t = ast.parse(spec['v'])
         what = spec['what']
@@ -520,6 +522,42 @@ RAW_CODES = ['1  # ', '"s"  # x', 'None #', 'c12v #', '1', "'s'", 'b"x"', '...',
              'global g', '*s', '**k', 'k=1', 'f(', "f'", 'a, b', 'await x', '1 #\n', '2  # ) ]', "'''"]
 
 
+PRIM_VALUES = [0, 1, True, False, 2, -1, None, 'u', '', 'c12v', 1.5, 'r', 115, 'not an identifier', '_', '*']
+
+
+def _prim_fields(a):
+    """fields of the node that hold a primitive (flags, levels, kinds, conversions, constants, identifiers) or a list of
+    identifiers"""
+    out = []
+    for fld in a._fields:
+        v = getattr(a, fld, None)
+        if isinstance(v, ast.AST):
+            continue
+        if isinstance(v, list):
+            if v and all(isinstance(x, str) for x in v):
+                out.extend((fld, j) for j in range(len(v)))
+            continue
+        out.append((fld, None))
+    return out
+
+
+def _prim_reqs(nodes, i):
+    """every primitive value (valid, out of range, wrong type) put to every primitive field of node i, through put() and
+    through attribute assignment: flags like AnnAssign.simple / is_async / ImportFrom.level / Constant.kind /
+    FormattedValue.conversion, constants, identifiers"""
+    f = nodes[i]
+    out = []
+    for fld, idx in _prim_fields(f.a):
+        for v in PRIM_VALUES:
+            code = {'k': 'prim', 'v': v}
+            out.append({'errkind': 'prim', 'op': 'put', 'node': i, 'field': fld, 'idx': idx, 'code': code})
+            if idx is None:
+                out.append({'errkind': 'prim', 'op': 'setattr', 'node': i, 'field': fld, 'code': code})
+            else:
+                out.append({'errkind': 'prim', 'op': 'setitem', 'node': i, 'field': fld, 'idx': idx, 'code': code})
+    return out
+
+
 def _op_category(a):
     for base, name in ((ast.boolop, 'boolop'), (ast.operator, 'operator'), (ast.unaryop, 'unaryop'), (ast.cmpop, 'cmpop')):
         if isinstance(a, base):
@@ -746,7 +784,14 @@ def systematic(rng, root, nodes, cap):
                     if pos < n:
                         reqs.append({'errkind': 'vslice', 'op': 'put', 'node': i, 'field': fld, 'idx': pos, 'code': {'k': 'src', 'v': src}})
     first = []
+    seen_cls = set()
     for i, f in enumerate(nodes):
+        if cap >= 50 and not isinstance(f.a, ast.expr_context):
+            # (hand-written special trees only) the primitive product once per (node class, parent class) of the tree
+            key = (f.a.__class__, f.parent.a.__class__ if f.parent else None)
+            if key not in seen_cls:
+                seen_cls.add(key)
+                first.extend(_prim_reqs(nodes, i))
         for fld in _virtual_fields(f.a):
             first.extend(_slice_delete_reqs(i, f, fld))
         if f.parent is not None and category(f.a) in SMALL_CATEGORIES:
@@ -793,6 +838,9 @@ def gen_invalid(rng, root, nodes, errkind=None):
         return _delete_field_req(rng, nodes)
     if kind == 'optvalue-stmt':
         return _optvalue_stmt_req(rng, nodes)
+    if kind == 'prim':
+        reqs = _prim_reqs(nodes, rng.randrange(len(nodes)))
+        return rng.choice(reqs) if reqs else None
     if kind == 'valid-any':
         return _valid_any_req(rng, nodes, tg)
     if kind == 'raw-any':
@@ -945,6 +993,12 @@ SPECIAL = [
     ('a or b', 'exec'), ('not not a', 'exec'), ('x **= 2', 'exec'), ('a if b or c or d or e or f else g', 'expr'), ('-a ** -b', 'expr'),
     ('a is not b not in c', 'expr'), ('x = a.b.c', 'exec'), ('x = a.b.c.d', 'exec'), ('f(a.b).c[d].e', 'exec'), ('x = a[b][c]', 'exec'),
     ('return a.b', 'stmt'), ('x = (a.b).c', 'exec'), ('a.b.c', 'expr'),
+    # primitive-valued fields: flags, levels, kinds, conversions, constants
+    ('self.x: int = 1', 'exec'), ('d[k]: str', 'exec'), ('(a): int = 0\nb.c: float', 'exec'), ('a: int', 'exec'), ('class C:\n    self.x: int = 1', 'exec'),
+    ('from . import x', 'exec'), ('from ...m import y', 'exec'), ('async def f():\n    async for a in b: pass\n    async with c: pass\n    [x async for x in y]', 'exec'),
+    ("x = u'a', b'b', 1, 1.5, None, True, ...", 'exec'), ("f'{a!r:>3}{b=}{c!s}'", 'exec'), ('match x:\n case None: pass\n case True: pass\n case {**r}: pass\n case [*s]: pass\n case C(k=1) as n: pass', 'exec'),
+    ('nonlocal_ = 1\ndef f():\n    global g1, g2\n    def h():\n        nonlocal g1', 'exec') if False else ('def f():\n    x = 1\n    def h():\n        nonlocal x\n    global g1, g2', 'exec'),
+    ('a.b.c = x.y', 'exec'), ('import a as b', 'exec'), ('f(k=1)', 'exec'), ('def f(a): pass', 'exec'), ('class C: pass', 'exec'), ('type A = int', 'exec'),
     # arglikes
     ('a, *b, c=1, **d', '_arglikes'), ('k=1, **d', '_arglikes'), ('*a, *b', '_arglikes'), ('a', '_arglikes'),
     ('f(a, *b, c=1, **d)', 'exec'), ('f(**d)', 'exec'), ('f(k=1)', 'exec'), ('f(x for x in y)', 'exec'), ('f()', 'exec'),
